@@ -84,9 +84,30 @@ def gen(seed):
             plan.append({'site': 'layer.tearDown', 'ident': rng.choice(cands), 'a': 'raise',
                          'exc': 'NotImplementedError'})
     _ws.gen_relpath(rng, world, m.discover(), opt, plan, 0.12)
+    if seed % 8 == 6 and plan and plan[0].get('exc') == 'NotImplementedError':
+        # command-line use + a test that leaves sys.argv changed in place before later layers
+        # are resumed in subprocesses: the children must get the ORIGINAL arguments
+        srng = random.Random(seed ^ 0xA26)
+        tests = [d for d in m.discover() if C.test_phases(d) and not d['t'].get('doctest')]
+        if tests:
+            d = srng.choice(tests)
+            plan.append(C.fault_entry(d, srng.choice(C.test_phases(d)),
+                                      {'a': 'argv_append',
+                                       'args': srng.choice([['-t', 'nomatch_xyz'], ['-m', 'nomatch'],
+                                                            ['--layer', 'nomatch'], ['!.']])}))
+    if seed % 8 == 5:
+        # one layer's subprocess cannot be started (EAGAIN, ENOMEM): every OTHER selected test
+        # still runs exactly once
+        srng = random.Random(seed ^ 0xC03)
+        names = [m.full(L['name']) for L in world['layers']] + [W.UNIT]
+        plan.append({'site': 'channel', 'ident': srng.choice(names), 'a': 'spawn_fail',
+                     'errno': srng.choice(['EAGAIN', 'ENOMEM']), 'exc': 'OSError'})
+    knobs = {**({'defaults_split': rng.randint(0, 99)} if rng.random() < 0.3 else {}),
+             'pipe_capacity': rng.choice([64, 4096])}
+    if any(e['a'] == 'argv_append' for e in plan):
+        knobs['argv_from_sys'] = True
     return {'property': ID, 'seed': seed, 'world': world, 'plan': plan, 'opt': opt,
-            'sched': {'prng': seed}, 'knobs': {**({'defaults_split': rng.randint(0, 99)} if rng.random() < 0.3 else {}), 'pipe_capacity': rng.choice([64, 4096])},
-            'j': rng.randint(2, 4)}
+            'sched': {'prng': seed}, 'knobs': knobs, 'j': rng.randint(2, 4)}
 
 
 def executed(T):
@@ -126,7 +147,9 @@ def check_exec(m, spec, opt, res, T, mode):
             viols.append(C.viol('C03/ran-under-foreign-layer/' + mode,
                                 '%s ran in the child for %r' % (key[0], child_layer.get(pid))))
             break
-    missing = sorted(k for k in want if k not in got)
+    # (tests of a layer whose subprocess could not be started - injected - cannot run)
+    unspawned = {m.short(x[1]) for x in res.sched['log'] if x[0] == 'spawn-fail'}
+    missing = sorted(k for k in want if k not in got and want[k] not in unspawned)
     if missing:
         viols.append(C.viol('C03/selected-test-not-run/' + mode,
                             'selected by %r but never ran: %r' % (opt, missing[:6])))
